@@ -277,6 +277,7 @@ type Site struct {
 type LoopAnn struct {
 	Havoc      bool
 	Invariants []Clause
+	Steps      []Clause // relation between one iteration's entry (prev(x)) and its back edge (x)
 }
 
 type SpecFunc struct {
@@ -646,6 +647,13 @@ func ParseContractFile(path, pkgPath string) (*ContractFile, error) {
 					return nil, err
 				}
 				la.Invariants = append(la.Invariants, c)
+			case "step":
+				idx := strings.Index(rc.text, "step")
+				c, err := mkClause(rc.text[idx+len("step"):], rc.line)
+				if err != nil {
+					return nil, err
+				}
+				la.Steps = append(la.Steps, c)
 			default:
 				return nil, fmt.Errorf("%s:%d: bad loop clause %q", path, rc.line, f[1])
 			}
